@@ -92,6 +92,10 @@ var suites = map[string]*Suite{}
 func register(s *Suite) { suites[s.Prop] = s }
 
 func main() {
+	if arg := os.Getenv("VERIF_C17_STRESS"); arg != "" {
+		c17StressMain(arg) // the -race child of the C17 stress runs
+		return
+	}
 	prop := flag.String("prop", "", "property id")
 	tier := flag.String("tier", "quick", "quick|thorough")
 	seed := flag.Uint64("seed", 1, "PRNG seed")
